@@ -102,45 +102,80 @@ let rec strip_copies l n copies =
   | Some rest when n > 0 -> strip_copies rest n (copies + 1)
   | _ -> (copies, l)
 
+(* shared by the kinds rx / hist / busy: the trains of a case; [cls] only in histories *)
+type step = { herr : bool; ff : fragment list; ft : n list; dl : n list option list; op : n list }
+
+let parse_trains trains =
+  Array.of_list (List.map (fun t -> match lst t with
+      | [tid; blob; bndl; frags] | [tid; blob; bndl; frags; _] ->
+        { tid = s_n tid; blob = s_bytes blob; bndl = s_bytes bndl; frags = Array.of_list (List.map frag_of_s (lst frags)) }
+      | _ -> raise (Bad "train entry")) (lst trains))
+let parse_classes trains =
+  Array.of_list (List.map (fun t -> match lst t with [_; _; _; _; c] -> s_sym c | _ -> "") (lst trains))
+let parse_refs refs = List.map (fun p -> match lst p with [k; i] -> (s_int k, s_int i) | _ -> raise (Bad "ref")) (lst refs)
+let parse_delivered dl =
+  List.map (fun x -> match x with Atom a when String.length a > 0 && a.[0] = 'x' -> Some (s_bytes x) | _ -> None) (lst dl)
+let parse_steps steps = List.map (fun s -> match lst s with
+    | [herr; ff; ft; dl; op] ->
+      { herr = s_bool herr; ff = List.map frag_of_s (lst ff); ft = List.map s_n (lst ft);
+        dl = parse_delivered dl; op = List.map s_n (lst op) }
+    | _ -> raise (Bad "step")) (lst steps)
+
+(* the decoder oracle of the model: the blobs of the case's trains that decode (a train whose blob
+   does not decode carries an empty bundle) *)
+let decodes_of ts =
+  let blobs = List.filter_map (fun t -> if t.bndl <> [] then Some t.blob else None) (Array.to_list ts) in
+  fun b -> List.mem b blobs
+let bundle_of_blob ts b =
+  let rec go i = if i >= Array.length ts then None else if ts.(i).blob = b && ts.(i).bndl <> [] then Some ts.(i).bndl else go (i + 1) in go 0
+let frag_of_ref ts (k, i) = if i = 0 then new_fragment ts.(k).tid N0 false false true [] else ts.(k).frags.(i - 1)
+
+(* correspondence, step by step: the extracted connector against the implementation's observations *)
+let correspond ts refs (steps : step list) : verdict list =
+  let decodes = decodes_of ts in
+  let res = ref [] in
+  let mism d = if List.length !res < 5 then res := Mismatch d :: !res in
+  let tb = ref [] in
+  let stepno = ref 0 in
+  List.iter2 (fun (k, i) st ->
+      incr stepno;
+      let f = frag_of_ref ts (k, i) in
+      let (tb', outs) = handle_fragment decodes !tb f in
+      tb := tb';
+      let mff = List.filter_map (function OutFailFrag f -> Some f | _ -> None) outs in
+      let mft = List.filter_map (function OutFailedTid t -> Some t | _ -> None) outs in
+      let mdl = List.filter_map (function OutBlob (_, b) -> Some (bundle_of_blob ts b) | _ -> None) outs in
+      let mop = List.sort compare (List.map (fun (t, _) -> int_of_n t) tb') in
+      let at = Printf.sprintf "step %d (train %d fragment %d): " !stepno k (i - 1) in
+      if not (frags_eq mff st.ff) then mism (at ^ "failure fragments differ: model [" ^ String.concat " " (List.map show_frag mff) ^ "] impl [" ^ String.concat " " (List.map show_frag st.ff) ^ "]");
+      if mft <> st.ft then mism (at ^ "failed transmission ids differ");
+      if mdl <> st.dl then mism (at ^ Printf.sprintf "delivered bundles differ: model %d impl %d" (List.length mdl) (List.length st.dl));
+      if mop <> List.map int_of_n st.op then mism (at ^ "open transmissions differ");
+      if st.herr <> (mff <> []) then mism (at ^ "handler error differs")) refs steps;
+  !res
+
+(* a faulty train (received indices ksub of n) whose fault was NOT signalled: which class *)
+let unsignalled_class ksub n ndel : string * string =
+  let (copies, rest) = strip_copies ksub n 0 in
+  if rest = [] && copies >= 2 then
+    ("bbc.dup.complete-train-redelivered",
+     Printf.sprintf "complete train of %d fragment(s) received %d times: delivered %d times, no failure signalled" n copies ndel)
+  else if is_prefix_chain rest 0 && List.length rest < n then
+    ("bbc.fault.trailing-incomplete",
+     Printf.sprintf "only the first %d of %d fragments arrived and nothing after them: no failure signalled, nothing delivered for it, transmission left open" (List.length rest) n)
+  else ("bbc.fault.undetected", "fault inside a transmission was not signalled")
+
+let rec local = function a :: (b :: _ as l) -> near a b && local l | _ -> true
+
 let rx = function
   | [label; mtu; trains; refs; steps] ->
     let label = s_sym label in
     let _ = s_int mtu in
-    let ts = Array.of_list (List.map (fun t -> match lst t with
-        | [tid; blob; bndl; frags] ->
-          { tid = s_n tid; blob = s_bytes blob; bndl = s_bytes bndl; frags = Array.of_list (List.map frag_of_s (lst frags)) }
-        | _ -> raise (Bad "train entry")) (lst trains)) in
-    let refs = List.map (fun p -> match lst p with [k; i] -> (s_int k, s_int i) | _ -> raise (Bad "ref")) (lst refs) in
-    let steps = List.map (fun s -> match lst s with
-        | [herr; ff; ft; dl; op] ->
-          (s_bool herr, List.map frag_of_s (lst ff), List.map s_n (lst ft),
-           List.map (fun x -> match x with Atom a when String.length a > 0 && a.[0] = 'x' -> Some (s_bytes x) | _ -> None) (lst dl),
-           List.map s_n (lst op))
-        | _ -> raise (Bad "step")) (lst steps) in
+    let ts = parse_trains trains in
+    let refs = parse_refs refs in
+    let steps = List.map (fun st -> (st.herr, st.ff, st.ft, st.dl, st.op)) (parse_steps steps) in
     if List.length refs <> List.length steps then raise (Bad "refs/steps length");
-    let blobs = Array.to_list (Array.map (fun t -> t.blob) ts) in
-    let decodes b = List.mem b blobs in
-    let bundle_of_blob b = let rec go i = if i >= Array.length ts then None else if ts.(i).blob = b then Some ts.(i).bndl else go (i + 1) in go 0 in
-    let res = ref [] in
-    let mism d = if List.length !res < 5 then res := Mismatch d :: !res in
-    (* correspondence, step by step *)
-    let tb = ref [] in
-    let stepno = ref 0 in
-    List.iter2 (fun (k, i) (herr, ff, ft, dl, op) ->
-        incr stepno;
-        let f = if i = 0 then new_fragment ts.(k).tid N0 false false true [] else ts.(k).frags.(i - 1) in
-        let (tb', outs) = handle_fragment decodes !tb f in
-        tb := tb';
-        let mff = List.filter_map (function OutFailFrag f -> Some f | _ -> None) outs in
-        let mft = List.filter_map (function OutFailedTid t -> Some t | _ -> None) outs in
-        let mdl = List.filter_map (function OutBlob (_, b) -> Some (bundle_of_blob b) | _ -> None) outs in
-        let mop = List.sort compare (List.map (fun (t, _) -> int_of_n t) tb') in
-        let at = Printf.sprintf "step %d (train %d fragment %d): " !stepno k (i - 1) in
-        if not (frags_eq mff ff) then mism (at ^ "failure fragments differ: model [" ^ String.concat " " (List.map show_frag mff) ^ "] impl [" ^ String.concat " " (List.map show_frag ff) ^ "]");
-        if mft <> ft then mism (at ^ "failed transmission ids differ");
-        if mdl <> dl then mism (at ^ Printf.sprintf "delivered bundles differ: model %d impl %d" (List.length mdl) (List.length dl));
-        if mop <> List.map int_of_n op then mism (at ^ "open transmissions differ");
-        if herr <> (mff <> []) then mism (at ^ "handler error differs")) refs steps;
+    let res = ref (correspond ts refs (List.map (fun (herr, ff, ft, dl, op) -> { herr; ff; ft; dl; op }) steps)) in
     (* the property, on the implementation's outputs *)
     let delivered = List.concat (List.map (fun (_, _, _, dl, _) -> dl) steps) in
     let signalled = List.concat (List.map (fun (_, ff, _, _, _) -> List.filter_map (fun f -> if f_fail f then Some f.f_tid else None) ff) steps) in
@@ -153,7 +188,6 @@ let rx = function
         let n = Array.length t.frags in
         let ksub = List.filter_map (fun (k', i) -> if k' = k && i > 0 then Some (i - 1) else None) refs in
         let fault = not (List.length ksub = n && is_prefix_chain ksub 0) in
-        let rec local = function a :: (b :: _ as l) -> near a b && local l | _ -> true in
         let ndel = List.length (List.filter (fun d -> d = Some t.bndl) delivered) in
         let sig_ = List.mem t.tid signalled in
         if not fault then begin
@@ -164,14 +198,7 @@ let rx = function
         end else if local ksub then begin
           if sig_ then tags := (if ndel > 0 then "fault-signalled+delivered" else "fault-signalled") :: !tags
           else begin
-            let (copies, rest) = strip_copies ksub n 0 in
-            if rest = [] && copies >= 2 then
-              pf "bbc.dup.complete-train-redelivered"
-                (Printf.sprintf "complete train of %d fragment(s) received %d times: delivered %d times, no failure signalled" n copies ndel)
-            else if is_prefix_chain rest 0 && List.length rest < n then
-              pf "bbc.fault.trailing-incomplete"
-                (Printf.sprintf "only the first %d of %d fragments arrived and nothing after them: no failure signalled, nothing delivered for it, transmission left open" (List.length rest) n)
-            else pf "bbc.fault.undetected" "fault inside a transmission was not signalled"
+            let (key, d) = unsignalled_class ksub n ndel in pf key d
           end
         end else begin
           tags := "beyond-locality" :: !tags
